@@ -3,10 +3,13 @@
    for an ARBITRARY device behaviour [dev], the ledger of all device calls with their results.
    [needs_unstage l d]: after the last successful stage() of d in l there is no later unstage() call of d;
    [needs_stop l d]: after the last set() call of d in l there is no later stop() call of d.
-   Partial: flyers (kickoff/collect), monitors and per-call subscriptions are not in the engine model;
+   Flyers (kickoff/collect), monitors and per-call subscriptions are not in the engine model: they are covered by the
+   dedicated model Engine/CleanupLedger.v (second half of this file; finding C06-a);
    the counting clause ("unstaged as many times as it was staged") fails inside class C06-b. *)
 From Coq Require Import List.
+From Coq Require Import NArith.
 From BV Require Import Engine.RE Engine.REInst Proofs.RE_Clean.
+From BV Require Engine.CleanupLedger Proofs.CleanupLedger.
 Import ListNotations.
 
 (* the property as far as the model can express it; refuted below (class C06-b) *)
@@ -113,3 +116,129 @@ Example C06_tracked_nonvacuous :
   let '(_, _, l, sg, _) := demo ex_tapes ex_results [] [0] (firstn 7 ex_evs) in
   needs_unstage l 0 = true /\ needs_stop l 1 = true /\ sg = [0].
 Proof. exact tracked_nonvacuous. Qed.
+
+(* ------------------------------------------------------------------------------------------------------------
+   Flyers, monitor subscriptions and per-call subscriptions: the dedicated model Engine/CleanupLedger.v
+   (bundler bookkeeping _uncollected / _monitor_params, _temp_callback_ids, the dispatcher's tokens, the finally block,
+   _clear_call_cache) with a ledger of every device call and dispatcher call.  [fails] is an ARBITRARY fault oracle
+   (does the n-th device call raise?), [h] an ARBITRARY history of ops (any number of calls, well-formed or not).
+   [needs_collect l f]: after the last successful kickoff() of f in l no collection was attempted (no collect() call,
+   no raising describe_collect());  [needs_clear l d c]: after the last successful subscribe(callback c) on d there is
+   no later clear_sub(callback c) on d;  [temp_made l t]: token t was handed out to a per-call callback or to a
+   'subscribe' message. *)
+Module CL := BV.Engine.CleanupLedger.
+Module CLP := BV.Proofs.CleanupLedger.
+
+(* (1) after the finally block a flyer that still needs a collection attempt is one that was in _uncollected of a run
+   the plan's own close_run message closed (ghost g_lost; finding C06-a) *)
+Theorem C06_flyers_collected_or_lost :
+  forall (fails : N -> bool) (h : list CL.op) (f : CL.dev),
+    let s := CL.exec fails CL.init (h ++ [CL.OFinally]) in
+    CL.needs_collect (CLP.led s) f = true -> In f (CL.g_lost s).
+Proof. exact CLP.flyers_after_finally. Qed.
+Print Assumptions C06_flyers_collected_or_lost.
+
+(* outside class C06-a every kicked-off flyer has been collected or a collection attempted *)
+Theorem C06_flyers_collected :
+  forall (fails : N -> bool) (h : list CL.op),
+    let s := CL.exec fails CL.init (h ++ [CL.OFinally]) in
+    CL.g_lost s = [] -> forall f, CL.needs_collect (CLP.led s) f = false.
+Proof. exact CLP.flyers_clean_outside_a. Qed.
+Print Assumptions C06_flyers_collected.
+
+(* the class is entered by a successful close_run message of a run with an uncollected flyer, and in no other way *)
+Theorem C06_lost_only_by_close :
+  forall (fails : N -> bool) (s : CL.st) (o : CL.op) (f : CL.dev),
+    In f (CL.g_lost (fst (CL.step fails s o))) -> In f (CL.g_lost s) \/
+    exists k b, o = CL.OClose k /\ CL.lookup k (CL.runs s) = Some b /\ In f (CL.b_unc b) /\
+                snd (CL.step fails s o) = true.
+Proof. exact CLP.lost_only_by_close. Qed.
+Print Assumptions C06_lost_only_by_close.
+
+(* finding C06-a: open_run; kickoff f; close_run - the engine goes idle and f is never collected *)
+Theorem C06_a_refuted :
+  exists h, let s := CL.exec CLP.no_faults CL.init (h ++ [CL.OFinally]) in
+            CL.g_lost s <> [] /\ ~ (forall f, CL.needs_collect (CLP.led s) f = false).
+Proof. exact CLP.a_refuted_thm. Qed.
+Print Assumptions C06_a_refuted.
+
+(* (2) after the finally block no run is left and every successful subscribe a monitor made has a later clear_sub call *)
+Theorem C06_monitors_removed :
+  forall (fails : N -> bool) (h : list CL.op),
+    let s := CL.exec fails CL.init (h ++ [CL.OFinally]) in
+    CL.runs s = [] /\ forall d c, CL.needs_clear (CLP.led s) d c = false.
+Proof. exact CLP.monitors_after_finally. Qed.
+Print Assumptions C06_monitors_removed.
+
+(* at every moment the bookkeeping covers the ledger: a callback still subscribed is in _monitor_params of an open run,
+   a flyer still to be collected is in _uncollected of an open run (or was lost as in C06-a) *)
+Theorem C06_cleanup_tracked :
+  forall (fails : N -> bool) (h : list CL.op),
+    let s := CL.exec fails CL.init h in
+    (forall d c, CL.needs_clear (CLP.led s) d c = true -> CLP.monitored (CL.runs s) (d, c)) /\
+    (forall f, CL.needs_collect (CLP.led s) f = true -> CLP.pend (CL.runs s) f \/ In f (CL.g_lost s)).
+Proof. exact CLP.ledger_tracked. Qed.
+Print Assumptions C06_cleanup_tracked.
+
+(* (3) when the next call starts - _clear_call_cache, the first thing __call__ does, and still after the new per-call
+   callbacks have been subscribed - no token ever handed out as temporary before is in the dispatcher *)
+Theorem C06_temp_tokens_removed :
+  forall (fails : N -> bool) (h : list CL.op) (n : nat) (t : CL.token),
+    let s := CL.exec fails CL.init h in
+    CL.temp_made (CLP.led s) t = true ->
+    ~ In t (CL.disp (CL.clear_cache s)) /\ ~ In t (CL.disp (CL.start_call n s)) /\ CL.temp (CL.clear_cache s) = [].
+Proof. exact CLP.temp_tokens_removed. Qed.
+Print Assumptions C06_temp_tokens_removed.
+
+(* what must not change: a subscription that is not temporary stays in the dispatcher through every step (start of a
+   call and finally block included) except an unsubscribe naming its token *)
+Theorem C06_permanent_kept :
+  forall (fails : N -> bool) (h : list CL.op) (o : CL.op) (t : CL.token),
+    let s := CL.exec fails CL.init h in
+    In t (CL.disp s) -> CL.temp_made (CLP.led s) t = false -> o <> CL.OUnsubscribe t -> o <> CL.OMainUnsub t ->
+    In t (CL.disp (fst (CL.step fails s o))) /\ CL.temp_made (CLP.led (fst (CL.step fails s o))) t = false.
+Proof. exact CLP.permanent_kept. Qed.
+Print Assumptions C06_permanent_kept.
+
+(* the ledger only grows *)
+Theorem C06_cleanup_ledger_grows :
+  forall (fails : N -> bool) (h : list CL.op) (o : CL.op),
+    let s := CL.exec fails CL.init h in exists l, CLP.led (fst (CL.step fails s o)) = CLP.led s ++ l.
+Proof. exact CLP.ledger_grows. Qed.
+Print Assumptions C06_cleanup_ledger_grows.
+
+(* a message for run key k leaves the bundlers of the other run keys as they were *)
+Theorem C06_other_runs_untouched :
+  forall (fails : N -> bool) (s : CL.st) (o : CL.op) (k k' : CL.key),
+    CLP.op_key o = Some k -> k' <> k ->
+    CL.lookup k' (CL.runs (fst (CL.step fails s o))) = CL.lookup k' (CL.runs s).
+Proof. exact CLP.other_runs_untouched. Qed.
+Print Assumptions C06_other_runs_untouched.
+
+(* non-vacuity: two calls on one engine, a raising collect(); the finally block collects flyer 1 and clears the monitor,
+   the second call removes the per-call token 1 and the in-plan token 2 and keeps the permanent token 0 *)
+Example C06_cleanup_nonvacuous :
+  let s := CL.exec CLP.ex_faults CL.init CLP.ex_session in
+  CL.g_lost s = [] /\ CL.runs s = [] /\ CL.disp s = [0; 3]%N /\ CL.temp s = [3%N] /\
+  CLP.led s = [CL.ESub CL.SMain 0; CL.ESub CL.SPerCall 1; CL.EDev 0 CL.MKickoff true; CL.EDev 1 CL.MKickoff true;
+               CL.EDev 10 CL.MDescribe true; CL.EDev 10 (CL.MSubscribe 0) true; CL.EDev 0 CL.MDescribeCollect true;
+               CL.EDev 0 CL.MCollect false; CL.ESub CL.SInPlan 2; CL.EDev 10 (CL.MClearSub 0) true;
+               CL.EDev 10 (CL.MSubscribe 0) true; CL.EDev 10 (CL.MClearSub 0) true; CL.EDev 1 CL.MDescribeCollect true;
+               CL.EDev 1 CL.MCollect true; CL.EUnsub CL.UClear 1; CL.EUnsub CL.UClear 2; CL.ESub CL.SPerCall 3;
+               CL.EDev 10 CL.MDescribe true; CL.EDev 10 (CL.MSubscribe 1) true; CL.EDev 10 (CL.MClearSub 1) true]%N.
+Proof. exact CLP.ex_session_runs. Qed.
+
+(* ... and in the middle of the first call (paused) flyer 1 and the monitor callback do need cleaning, tokens 1 and 2
+   are temporary and in the dispatcher, token 0 is not temporary *)
+Example C06_cleanup_midway_nonvacuous :
+  let s := CL.exec CLP.ex_faults CL.init (firstn 8 CLP.ex_session) in
+  CL.needs_collect (CLP.led s) 1%N = true /\ CL.needs_clear (CLP.led s) 10%N 0%N = true /\
+  CL.temp_made (CLP.led s) 1%N = true /\ CL.temp_made (CLP.led s) 2%N = true /\
+  CL.temp_made (CLP.led s) 0%N = false /\ CL.disp s = [0; 1; 2]%N.
+Proof. exact CLP.ex_midway. Qed.
+
+Example C06_a_witness_nonvacuous :
+  let s := CL.exec CLP.no_faults CL.init CLP.wit_a in
+  CL.g_lost s = [0%N] /\ CL.needs_collect (CLP.led s) 0%N = true /\ CL.runs s = [] /\
+  CLP.led s = [CL.EDev 0%N CL.MKickoff true].
+Proof. exact CLP.a_refuted. Qed.
